@@ -1,0 +1,84 @@
+// Copyright 2021-2022 Buf Technologies, Inc.
+//
+// Licensed under the Apache License, Version 2.0 (the "License");
+// you may not use this file except in compliance with the License.
+// You may obtain a copy of the License at
+//
+//      http://www.apache.org/licenses/LICENSE-2.0
+//
+// Unless required by applicable law or agreed to in writing, software
+// distributed under the License is distributed on an "AS IS" BASIS,
+// WITHOUT WARRANTIES OR CONDITIONS OF ANY KIND, either express or implied.
+// See the License for the specific language governing permissions and
+// limitations under the License.
+
+//go:build verif
+
+package connect
+
+import (
+	"bytes"
+	"sync/atomic"
+)
+
+// Hooks for the verification harness (build tag verif). With the tag off the
+// functions of the same name in verif_hooks_off.go are empty.
+
+// VerifPoolHooks, when set, observes every bufferPool.Get / Put.
+type VerifPoolHooks struct {
+	Get func(buf *bytes.Buffer)
+	Put func(buf *bytes.Buffer)
+	// Poison makes Put overwrite the released buffer's bytes, so that any alias
+	// retained past the release shows up as corrupted data.
+	Poison bool
+}
+
+var verifPoolHooks atomic.Value // *VerifPoolHooks
+
+// VerifSetPoolHooks installs (or, with nil, removes) the pool hooks.
+func VerifSetPoolHooks(h *VerifPoolHooks) {
+	if h == nil {
+		h = &VerifPoolHooks{}
+	}
+	verifPoolHooks.Store(h)
+}
+
+func verifPoolGet(buf *bytes.Buffer) {
+	if h, ok := verifPoolHooks.Load().(*VerifPoolHooks); ok && h.Get != nil {
+		h.Get(buf)
+	}
+}
+
+func verifPoolPut(buf *bytes.Buffer) {
+	h, ok := verifPoolHooks.Load().(*VerifPoolHooks)
+	if !ok {
+		return
+	}
+	if h.Put != nil {
+		h.Put(buf)
+	}
+	if h.Poison {
+		b := buf.Bytes()
+		b = b[:cap(b)]
+		for i := range b {
+			b[i] = 0xDD
+		}
+	}
+}
+
+var verifYieldFunc atomic.Value // func(point string)
+
+// VerifSetYield installs a function called at the named synchronisation points
+// of duplexHTTPCall (nil removes it).
+func VerifSetYield(f func(point string)) {
+	if f == nil {
+		f = func(string) {}
+	}
+	verifYieldFunc.Store(f)
+}
+
+func verifYield(point string) {
+	if f, ok := verifYieldFunc.Load().(func(string)); ok {
+		f(point)
+	}
+}
